@@ -169,6 +169,9 @@ type modelQuery struct {
 	extra  string // size constraints of the small-model search
 	failed bool
 	note   string
+	// the whole model search of one obligation is bounded: a replay is a courtesy, the verdict
+	// (VIOLATION ... no-failing-input-found) does not depend on it
+	deadline time.Time
 }
 
 func (m *modelQuery) solverCmd(file string) []string {
@@ -176,9 +179,9 @@ func (m *modelQuery) solverCmd(file string) []string {
 	case "cvc5":
 		return []string{"cvc5", "--tlimit=20000", "--produce-models", file}
 	case "z3":
-		return []string{"z3", "-T:20", file}
+		return []string{"z3", "-T:20", "-memory:4000", file}
 	default:
-		return []string{"z3-new", "-T:20", file}
+		return []string{"z3-new", "-T:20", "-memory:4000", file}
 	}
 }
 
@@ -266,6 +269,11 @@ func (m *modelQuery) get(terms []string) {
 		}
 	}
 	if len(need) == 0 || m.failed {
+		return
+	}
+	if !m.deadline.IsZero() && time.Now().After(m.deadline) {
+		m.failed = true
+		m.note = "model search abandoned after 90 s"
 		return
 	}
 	var b strings.Builder
@@ -893,7 +901,7 @@ func (eng *Engine) replay(o *Obligation) (res replayResult) {
 	if fn.Parent() != nil {
 		return replayResult{Note: "anonymous functions cannot be called from a test"}
 	}
-	m := &modelQuery{eng: eng, o: o, script: o.Script, cache: map[string]*sx{}}
+	m := &modelQuery{eng: eng, o: o, script: o.Script, cache: map[string]*sx{}, deadline: time.Now().Add(90 * time.Second)}
 	m.preferSmall(fc, fn)
 	lb := &litBuilder{m: m, fc: fc, pkg: fn.Pkg.Pkg, imports: map[string]string{}, ptrVars: map[int64]string{}}
 	names := paramNames(fn)
